@@ -775,8 +775,12 @@ func (r *Router) processEvent(ev *types.Event, reqID interface{}) error {
 			}
 
 			// If the span was kept, we want to generate a probe that we'll forward
-			// to a peer IF this span would have been forwarded.
-			ev.Data.MetaRefineryProbe.Set(true)
+			// to a peer IF this span would have been forwarded. The span itself has
+			// already been handed to the upstream transmission, which serializes it
+			// later, so it must not be modified any more: the probe is a copy.
+			probe := *ev
+			probe.Data.MetaRefineryProbe.Set(true)
+			ev = &probe
 			isProbe = true
 		}
 	}
